@@ -76,6 +76,38 @@ impl std::io::Read for Pieces<'_> {
     }
 }
 
+/// A stream that delivers `data` in pieces of `piece` octets and answers its
+/// `fail_at`-th call (counted from 0) with an I/O error of kind `kind`,
+/// consuming nothing; every other call succeeds (a transient fault: the
+/// stream would carry on if asked again).
+pub struct FailAt<'a> {
+    data: &'a [u8],
+    pos: usize,
+    piece: usize,
+    fail_at: usize,
+    kind: std::io::ErrorKind,
+    pub calls: usize,
+}
+
+impl std::io::Read for FailAt<'_> {
+    fn read(&mut self, buf: &mut [u8]) -> std::io::Result<usize> {
+        let call = self.calls;
+        self.calls += 1;
+        if call == self.fail_at {
+            return Err(std::io::Error::new(self.kind, "injected"));
+        }
+        let n = self.piece.min(buf.len()).min(self.data.len() - self.pos);
+        buf[..n].copy_from_slice(&self.data[self.pos..self.pos + n]);
+        self.pos += n;
+        Ok(n)
+    }
+}
+
+/// Parses `bytes` from a stream whose `fail_at`-th read fails with `kind`.
+pub fn parse_failing(bytes: &[u8], piece: usize, fail_at: usize, kind: std::io::ErrorKind) -> Result<Parsed, String> {
+    parse_stream(FailAt { data: bytes, pos: 0, piece, fail_at, kind, calls: 0 }, bytes.len())
+}
+
 /// Parses `bytes` with `quandary::zone_file::Parser`. `Err` = panic message.
 pub fn parse_bytes(bytes: &[u8]) -> Result<Parsed, String> {
     parse_stream(Cursor::new(bytes), bytes.len())
